@@ -3,7 +3,10 @@ Pure PyRTL."""
 import random
 
 
-def build_mem(aw=1, dw=2, pre=()):
+def build_mem(aw=1, dw=2, pre=(), style='plain'):
+    """style: 'plain' one enabled write port; 'regports' the write port's address / data / enable are
+    Registers directly; 'cond' one port built by conditional_assignment from two branches with
+    different kinds of write (plain / EnabledWrite)"""
     import pyrtl
     from fam import passes
     pyrtl.reset_working_block()
@@ -17,7 +20,24 @@ def build_mem(aw=1, dw=2, pre=()):
     o2 = pyrtl.Output(dw, 'o2')
     o1 <<= m[ra]
     o2 <<= m[rb]
-    m[wa] <<= pyrtl.MemBlock.EnabledWrite(wd, we)
+    if style == 'plain':
+        m[wa] <<= pyrtl.MemBlock.EnabledWrite(wd, we)
+    elif style == 'regports':
+        r_a, r_d, r_e = pyrtl.Register(aw, 'r_a'), pyrtl.Register(dw, 'r_d'), pyrtl.Register(1, 'r_e')
+        r_a.next <<= wa
+        r_d.next <<= wd
+        r_e.next <<= we
+        m[r_a] <<= pyrtl.MemBlock.EnabledWrite(r_d, r_e)
+    elif style == 'cond':
+        c1 = pyrtl.Input(1, 'c1')
+        c2 = pyrtl.Input(1, 'c2')
+        with pyrtl.conditional_assignment:
+            with c1:
+                m[wa] |= wd                                       # plain write in branch 1
+            with c2:
+                m[rb] |= pyrtl.MemBlock.EnabledWrite(~wd, we)      # enabled write in branch 2
+    else:
+        raise ValueError(style)
     block = pyrtl.working_block()
     mem = m
     for p in pre:
@@ -26,15 +46,17 @@ def build_mem(aw=1, dw=2, pre=()):
 
 
 def array_walk(simname='Simulation', aw=1, dw=2, pre=(), seed=0, max_steps=6000, init=None,
-               addr_pool=None):
+               addr_pool=None, style='plain'):
     """One long run; an independent array model (a Python list of 2**aw words) predicts each read
     and the content; the walk continues until every (content, operation) pair of the complete
     space was exercised (small memories) or max_steps. -> replay-style dict"""
     import pyrtl
     rnd = random.Random(seed)
-    block, mem = build_mem(aw, dw, pre)
+    block, mem = build_mem(aw, dw, pre, style)
     nwords = 2 ** aw
-    small = nwords * dw <= 4
+    small = nwords * dw <= 4 and style == 'plain'
+    pend = (0, 0, 0)          # regports: the registered (address, data, enable), reset to 0
+    mask = (1 << dw) - 1
     init = {int(k): v for k, v in (init or {}).items()}
     arr = [init.get(a, 0) for a in range(nwords)]
     kw = dict(block=block, memory_value_map={mem: dict(init)} if init else {})
@@ -55,12 +77,24 @@ def array_walk(simname='Simulation', aw=1, dw=2, pre=(), seed=0, max_steps=6000,
                 op = dict(ra=rnd.randrange(nwords), rb=rnd.randrange(nwords),
                           wa=rnd.randrange(nwords), wd=rnd.getrandbits(dw), we=rnd.getrandbits(1))
             seen.add((tuple(arr), tuple(sorted(op.items()))))
+        if style == 'cond':
+            op['c1'], op['c2'] = rnd.getrandbits(1), rnd.getrandbits(1)
         hist.append(op)
         sim.step(dict(op))
         exp1, exp2 = arr[op['ra']], arr[op['rb']]      # reads see strictly earlier writes
         got1, got2 = sim.inspect('o1'), sim.inspect('o2')
-        if op['we']:
-            arr[op['wa']] = op['wd']
+        if style == 'plain':
+            if op['we']:
+                arr[op['wa']] = op['wd']
+        elif style == 'regports':
+            if pend[2]:
+                arr[pend[0]] = pend[1]
+            pend = (op['wa'], op['wd'], op['we'])
+        else:
+            if op['c1']:
+                arr[op['wa']] = op['wd']
+            elif op['c2'] and op['we']:
+                arr[op['rb']] = (~op['wd']) & mask
         steps += 1
         if (got1, got2) != (exp1, exp2):
             return dict(failed=True, observed=dict(step=steps - 1, o1=got1, o2=got2, op=op),
